@@ -600,9 +600,21 @@ class _LayoutAdapter:
             f"outputs_as_nchw: output {index} has rank {len(shape)}, expected 4."
         )
 
+    @staticmethod
+    def _require_real(aval: Any, *, kind: str, index: int) -> None:
+        # Complex values travel as packed real tensors of rank + 1; the 4-D
+        # boundary transposes would address the wrong axes.
+        dtype = _maybe_dtype(aval)
+        if dtype is not None and np.issubdtype(np.dtype(dtype), np.complexfloating):
+            raise ValueError(
+                f"{kind}s_as_nchw: {kind} {index} is complex ({np.dtype(dtype)}); "
+                "layout conversion of complex tensors is not supported."
+            )
+
     def bind_input(self, var: Any, index: int) -> None:
         aval_shape = tuple(var.aval.shape)
         self._require_4d(aval_shape, kind="input", index=index)
+        self._require_real(var.aval, kind="input", index=index)
 
         nchw_shape = tuple(aval_shape[p] for p in _NHWC_TO_NCHW_PERM)
         nchw_input_val = ir.Value(
@@ -638,6 +650,7 @@ class _LayoutAdapter:
         val = self.ctx.get_value_for_var(out_var)
         aval_shape = tuple(out_var.aval.shape)
         self._require_4d(aval_shape, kind="output", index=index)
+        self._require_real(out_var.aval, kind="output", index=index)
 
         output_type = val.type
         if output_type is None:
